@@ -110,8 +110,9 @@ def run_swarm(case):
                 if not uris and call['args'] != 'none':
                     pass
                 # build the argument dictionary
-                if call['args'] == 'none':
-                    args_dict = None
+                if call['args'] in ('none', 'empty'):
+                    # no dictionary, or an empty one: every action gets its connection and nothing else
+                    args_dict = None if call['args'] == 'none' else {}
                     expect_args = {u: [] for u in uris}
                 elif call['args'] == 'reuse' and prev_args is not None:
                     args_dict, expect_args = prev_args
@@ -201,7 +202,7 @@ def run_swarm(case):
                     if e[2] != want:
                         out.fail('swarm:arguments', '%s: member %s received %r, its entry is %r' % (cdesc, e[1], e[2], want))
                         break
-                if args_dict is not None:
+                if args_dict:
                     for u in uris:
                         if list(args_dict[u]) != expect_args[u]:
                             out.fail('swarm:argument-dict-mutated', '%s: entry of %s is now %r' % (cdesc, u, args_dict[u]))
@@ -245,7 +246,7 @@ def swarm_case(draw):
     if not open_fail:
         for _ in range(draw(st.integers(1, 4))):
             calls.append({'mode': draw(st.sampled_from(['sequential', 'parallel', 'parallel_safe', 'parallel_safe'])),
-                          'args': draw(st.sampled_from(['none', 'fresh', 'fresh', 'reuse', 'shared', 'missing'])), 'nargs': draw(st.integers(0, 3)),
+                          'args': draw(st.sampled_from(['none', 'empty', 'fresh', 'fresh', 'reuse', 'shared', 'missing'])), 'nargs': draw(st.integers(0, 3)),
                           'fail': draw(st.one_of(st.just([]), st.lists(st.sampled_from(uris), unique=True, max_size=3))) if uris else [],
                           'yields': draw(st.integers(0, 3))})
     return {'uris': uris, 'open_fail': open_fail, 'open_yields': draw(st.integers(0, 2)), 'calls': calls, 'schedule': draw(_sched)}
